@@ -332,6 +332,7 @@ func (g *G) basePlan(prop string, seed uint64) *Plan {
 		// position rows pruned in the background
 		p.Prune = &PrunePlan{Keep: g.pickInt([]int{1, 2, 3, 5, 8, 200}), EveryMs: g.pickInt([]int{500, 2000, 10000})}
 	}
+	p.Checks["quoted_numbers"] = g.chance(25)
 	p.Sources = []SourcePlan{sp}
 	p.Content = ContentPlan{TxMax: 3, LogMax: 3, TraceMax: 2, EmptyPct: 20}
 	for i := 0; i < 4; i++ {
@@ -773,5 +774,9 @@ func GenC06(seed uint64) *Plan {
 		p.Faults.HTTPKinds = 1<<hfConnErr | 1<<hfStatus | 1<<hfRPCError
 	}
 	p.Checks["range"] = true
+	// in a third of the runs the tasks are built by the repository's own
+	// loadTasks, so that start and stop travel through the configuration
+	// document (numbers, or quoted and zero-padded strings) into the task
+	p.SharedPool = g.chance(35)
 	return p
 }
